@@ -11,7 +11,7 @@ for mp in sorted(glob.glob(os.path.join(V, "seeded/*/meta.json"))):
     if not m.get("caught"):
         continue
     d = os.path.dirname(mp)
-    pids = sorted(set(re.findall(r"\b(C\d\d): ", m["caught_by_or_reason_missed"]))) or [m["breaks_property"]]
+    pids = sorted(set(re.findall(r"\b(C\d\d)[:.]", m["caught_by_or_reason_missed"]))) or [m["breaks_property"]]
     pids = [p for p in pids if p in cfg]
     pids = [p for p in pids if kani or cfg[p]["engine"] == "verus" or ("verus" in cfg[p]["engine"] and "Kani" not in m["caught_by_or_reason_missed"] and "c2" not in m["caught_by_or_reason_missed"])]
     if not pids:
